@@ -37,6 +37,7 @@ import (
 	"github.com/siglens/siglens/pkg/segment/query"
 	"github.com/siglens/siglens/pkg/segment/structs"
 	"github.com/siglens/siglens/pkg/utils"
+	"github.com/siglens/siglens/pkg/verifhook"
 	log "github.com/sirupsen/logrus"
 	"github.com/valyala/fasthttp"
 )
@@ -423,6 +424,7 @@ func RunQueryForNewPipeline(conn *websocket.Conn, qid uint64, root *structs.ASTN
 	qc *structs.QueryContext, sizeLimit uint64,
 ) (*structs.PipeSearchResponseOuter, bool, *dtu.TimeRange, error) {
 	isAsync := conn != nil
+	defer verifhook.At("h.done", "qid", qid)
 
 	runTimechartQuery := (timechartRoot != nil && timechartAggs != nil)
 	var timechartQid uint64
@@ -465,6 +467,7 @@ func RunQueryForNewPipeline(conn *websocket.Conn, qid uint64, root *structs.ASTN
 		}
 
 		rQuery.SetLatestQueryState(queryStateData.StateName)
+		verifhook.At("h.recv", "qid", queryStateData.Qid, "state", queryStateData.StateName.String())
 
 		switch queryStateData.StateName {
 		case query.WAITING:
